@@ -69,18 +69,33 @@ NormSize(La, b) ==
 Norm(La, b, T) == NormSize(La, [r \in DOMAIN b |-> IF r \in T THEN Comp(La, r, b[r]) ELSE b[r]])
 Sealed(La, b) == [r \in DOMAIN b |-> IF r \in ToSet(La.seal) THEN SealWord ELSE b[r]]
 Fresh(La) == NormSize(La, Preset(La))                                  \* the state of a new object
+\* a configuration / a binary denotes the registers that exist; whatever an object holds for the others is not transported
+Restrict(La, b) == [r \in DOMAIN b |-> IF r \in Active(La, b) THEN b[r] ELSE Preset(La)[r]]
 
 \* ------------------------------------------------------------------ writes: sequence of [r, f, v]  (f = 0: whole register / group through
 \* its configuration view; f > 0: bit-field f of leaf r)
+\* A group with ALTERNATIVE WIDTHS takes a value that fits into a narrower alternative width aw as a value of that width:
+\* it is distributed (with the byte reversal of the group, if any) over the first aw / SubW sub-registers, the others keep
+\* their value.  aw = 0: the declared width - SetView of Registers.tla.
+SetViewAlt(La, b, g, S, aw) ==
+  LET sw == SubW(La, g)
+      n == aw \div sw
+      S0 == IF Reg(La, g).reverse THEN ByteRev(S, aw) ELSE S
+      PosA(k) == IF Reg(La, g).rso THEN aw - k * sw ELSE (k - 1) * sw
+      Part(k) == {i - PosA(k) : i \in {j \in S0 : j >= PosA(k) /\ j < PosA(k) + sw}}
+      IdxOf(s) == CHOOSE k \in 1..Len(Reg(La, g).subs) : Reg(La, g).subs[k] = s
+  IN [s \in DOMAIN b |-> IF s \in ToSet(Reg(La, g).subs) /\ IdxOf(s) <= n THEN Part(IdxOf(s)) ELSE b[s]]
 RECURSIVE Apply(_, _, _)
 Apply(La, b, ws) ==
   IF ws = <<>> THEN b
   ELSE LET w == Head(ws)
            V == ToSet(w.v)
-           nb == IF w.f = 0 THEN SetView(La, b, w.r, V, FALSE) ELSE SetFieldBits(La, b, w.r, w.f, V, TRUE)
+           nb == IF w.f > 0 THEN SetFieldBits(La, b, w.r, w.f, V, TRUE)
+                 ELSE IF w.aw = 0 THEN SetView(La, b, w.r, V, FALSE) ELSE SetViewAlt(La, b, w.r, V, w.aw)
        IN Apply(La, nb, Tail(ws))
 Touched(ws) == {ws[i].r : i \in {j \in DOMAIN ws : ws[j].f > 0}}
-WriteFits(La, w) == IF w.f = 0 THEN \A i \in ToSet(w.v) : i < W(La, w.r) ELSE Fits(La, w.r, w.f, ToSet(w.v))
+WriteFits(La, w) == IF w.f > 0 THEN Fits(La, w.r, w.f, ToSet(w.v))
+                    ELSE \A i \in ToSet(w.v) : i < (IF w.aw = 0 THEN W(La, w.r) ELSE w.aw)
 
 \* ------------------------------------------------------------------ layout well-formedness (data consistency)
 GroupsConsistent(La) == \A g \in Groups(La) : Reg(La, g).nmiss = 0 /\ (Reg(La, g).declw = 0 \/ Reg(La, g).declw = Reg(La, g).subsw)
@@ -91,7 +106,7 @@ NewObject == /\ bits' = Fresh(L) /\ nrm' = (Computed(L) = {}) /\ gen' = gen + 1
              /\ act' = [a |-> "NewObject"] /\ UNCHANGED <<cfg, bin>> /\ Keep
 Template == /\ cfg' = [ok |-> TRUE, b |-> Preset(L), nrm |-> FALSE]
             /\ act' = [a |-> "Template"] /\ UNCHANGED <<bits, bin, nrm, gen>> /\ Keep
-GetConfig == /\ cfg' = [ok |-> TRUE, b |-> bits, nrm |-> nrm]
+GetConfig == /\ cfg' = [ok |-> TRUE, b |-> Restrict(L, bits), nrm |-> nrm]
              /\ act' = [a |-> "GetConfig"] /\ UNCHANGED <<bits, bin, nrm, gen>> /\ Keep
 LoadConfig == /\ cfg.ok
               /\ bits' = Norm(L, cfg.b, Computed(L)) /\ nrm' = TRUE /\ gen' = gen + 1
@@ -101,7 +116,7 @@ SetValues(ws) == /\ \A i \in DOMAIN ws : WriteFits(L, ws[i])
                  /\ bits' = Norm(L, Apply(L, bits, ws), Touched(ws))
                  /\ act' = [a |-> "SetValues", w |-> ws] /\ UNCHANGED <<cfg, bin, nrm, gen>> /\ Keep
 Export(seal) == /\ L.hasbin
-                /\ bin' = [ok |-> TRUE, b |-> IF seal THEN Sealed(L, bits) ELSE bits, nrm |-> nrm]
+                /\ bin' = [ok |-> TRUE, b |-> Restrict(L, IF seal THEN Sealed(L, bits) ELSE bits), nrm |-> nrm]
                 /\ act' = [a |-> "Export", seal |-> seal, afterparse |-> (act.a = "Parse"), same |-> (bin.ok /\ ~seal /\ Same(L, bin.b, bits))]
                 /\ UNCHANGED <<bits, cfg, nrm, gen>> /\ Keep
 Parse == /\ bin.ok
